@@ -65,7 +65,7 @@ ASSUMPTIONS = [
     "a configuration the stock Keras layer itself cannot run is skipped and "
     "counted (label stock_unsupported)",
 ]
-BUDGET_S = {"quick": 42, "thorough": 840}
+BUDGET_S = {"quick": 38, "thorough": 840}
 REQUIRED_LABELS = {
     "quick": ["canonical", "hyp", "QDense", "QConv1D", "QConv2D",
               "QDepthwiseConv2D", "QSeparableConv1D", "QSeparableConv2D",
@@ -77,7 +77,11 @@ REQUIRED_LABELS = {
               "go_backwards", "return_sequences", "rnn_ref:stock_layer",
               "rnn_ref:cell_loop", "pool_tolerance_checked"],
 }
-REQUIRED_LABELS["quick"] += ["reset_after", "sep1d_causal", "gru_no_recurrent_q",
+REQUIRED_LABELS["quick"] += ["multi_call", "multi_call:shape_changed",
+                            "later_call_checked", "mask:has_zero",
+                            "mask:non_binary", "dropout_inference", "unroll",
+                            "deprecated_range_args", "pad_uppercase",
+                            "reset_after", "sep1d_causal", "gru_no_recurrent_q",
                             "gru_reset_after_bias", "lstm_nobias_bias_q"]
 REQUIRED_LABELS["thorough"] = list(REQUIRED_LABELS["quick"])
 
@@ -236,17 +240,69 @@ def oracle(ctx, case, tag):
   act = G.resolve_activation(case.get("act"))
   ract = G.resolve_activation(case.get("ract")) if "ract" in case else None
 
-  # 3. differential
-  if fam == "pool":
-    fails += _pool_check(case, x, qlist, act, yq, base, labs)
+  # 3. differential, first call
+  twin = {}
+  f1, yr = _differential(case, ws, x, yq, qlist, act, ract, base, labs, twin)
+  fails += f1
+  if fails:
+    return done()
+  if yr is None and fam != "pool":      # stock layer cannot run this
+    nontrivial = False
     return done()
 
+  # 4. perturbation: swapping two distinct quantizers in the reference must
+  # change the reference output (otherwise "in weight order" is not tested
+  # by this case)
+  pair = _distinct_pair(case) if fam != "pool" else None
+  if pair is not None:
+    r1, r2 = pair
+    sw = dict(qlist)
+    sw[r1], sw[r2] = qlist[r2], qlist[r1]
+    try:
+      ys, _ = R.reference(case, ws, x, sw, act, ract)
+      labs.append("perturb_insensitive" if same(ys, yr) else "perturb_sensitive")
+    except Exception:  # pylint: disable=broad-except
+      labs.append("perturb_not_applicable")
+
+  # 5. the SAME layer instance on further inputs of other admissible shapes:
+  # every output must equal the reference for that input (no state may be
+  # carried over from an earlier call)
+  import tensorflow as tf  # pylint: disable=g-import-not-at-top
+  for call in case.get("calls", []):
+    sub = dict(case, in_shape=call["in_shape"], x=call["x"])
+    sub.pop("calls", None)
+    xk = np.asarray(call["x"], dtype=np.float64).astype(np.float32).reshape(
+        call["in_shape"])
+    lbase = dict(base, later_call=True)
+    try:
+      yk = np.asarray(ql(tf.constant(xk)).numpy(), dtype=np.float32)
+    except Exception as e:  # pylint: disable=broad-except
+      if not _stock_can_run(sub, ws, xk):
+        labs.append("stock_unsupported")
+        continue
+      sig = dict(lbase, **core.exc_signature(e))
+      sig["token"] = _token(e)
+      fails.append(("layer_raises", sig, repr(e)[:400]))
+      return done()
+    fk, _ = _differential(sub, ws, xk, yk, qlist, act, ract, lbase, labs, twin)
+    labs.append("later_call_checked")
+    if fk:
+      fails += fk
+      return done()
+  return done()
+
+
+def _differential(case, ws, x, yq, qlist, act, ract, base, labs, twin):
+  """One call of the layer against the reference for that input.  Returns
+  (fails, reference output or None)."""
+  fam = G.FAMILY[case["layer"]]
+  if fam == "pool":
+    return _pool_check(case, x, qlist, act, yq, base, labs, twin), None
   try:
     yr, info = R.reference(case, ws, x, qlist, act, ract)
   except R.StockUnsupported:
     labs.append("stock_unsupported")
-    nontrivial = False
-    return done()
+    return [], None
   if info.get("cf_transposed_ref"):
     labs.append("cf_transposed_ref")
   if "rnn_ref" in info:
@@ -254,10 +310,9 @@ def oracle(ctx, case, tag):
 
   if not same(yq, yr):
     why = _explain(case, ws, x, qlist, act, ract, yq)
-    fails.append(("values", dict(base, explains=why), _diff_detail(yq, yr)))
-    return done()
+    return [("values", dict(base, explains=why), _diff_detail(yq, yr))], yr
 
-  # 3b. recurrent layers without state quantizer: also the stock *layer*
+  # recurrent layers without state quantizer: also the stock *layer*
   if fam == "rnn" and qlist.get("state") is None:
     try:
       yl, _ = R.reference(case, ws, x, qlist, act, ract, mode="layer")
@@ -279,24 +334,9 @@ def oracle(ctx, case, tag):
       else:
         ok = same(yq, yl)
       if not ok:
-        fails.append(("values", dict(base, explains="stock_layer_differs"),
-                      _diff_detail(yq, yl)))
-        return done()
-
-  # 4. perturbation: swapping two distinct quantizers in the reference must
-  # change the reference output (otherwise "in weight order" is not tested
-  # by this case)
-  pair = _distinct_pair(case)
-  if pair is not None:
-    r1, r2 = pair
-    sw = dict(qlist)
-    sw[r1], sw[r2] = qlist[r2], qlist[r1]
-    try:
-      ys, _ = R.reference(case, ws, x, sw, act, ract)
-      labs.append("perturb_insensitive" if same(ys, yr) else "perturb_sensitive")
-    except Exception:  # pylint: disable=broad-except
-      labs.append("perturb_not_applicable")
-  return done()
+        return [("values", dict(base, explains="stock_layer_differs"),
+                 _diff_detail(yq, yl))], yr
+  return [], yr
 
 
 def _distinct_pair(case):
@@ -332,6 +372,16 @@ def _explain(case, ws, x, qlist, act, ract, yq):
   if act is not None:
     cands.append(("activation_skipped", qlist, None))
   cands = [(n, q_, a, ws) for n, q_, a in cands]
+  if case.get("mask") is not None:
+    try:
+      y, _ = R.reference(case, ws, x, qlist, act, ract, mask_first=True)
+      if same(y, yq):
+        return "mask_before_quantizer"
+      y, _ = R.reference(dict(case, mask=None), ws, x, qlist, act, ract)
+      if same(y, yq):
+        return "mask_ignored"
+    except Exception:  # pylint: disable=broad-except
+      pass
   # one weight used in place of another of the same shape
   wr = G.weight_roles(case)
   for dst in wr:
@@ -353,7 +403,10 @@ def _explain(case, ws, x, qlist, act, ract, yq):
   return "unexplained"
 
 
-def _pool_check(case, x, qlist, act, yq, base, labs):
+def _pool_check(case, x, qlist, act, yq, base, labs, twin):
+  """`twin` holds the activation-free twin layer of this case, so that it sees
+  the same sequence of calls as the layer under test."""
+  import tensorflow as tf  # pylint: disable=g-import-not-at-top
   fails = []
   ref, tol, qf = R.pooling(case, x, qlist)
   if tol is None:
@@ -364,7 +417,11 @@ def _pool_check(case, x, qlist, act, yq, base, labs):
     return fails
   if case.get("act") is not None:
     try:
-      _, pre = _run_q(case, {}, x, act_override=None)
+      if "layer" not in twin:
+        twin["layer"], pre = _run_q(case, {}, x, act_override=None)
+      else:
+        pre = np.asarray(twin["layer"](tf.constant(x)).numpy(),
+                         dtype=np.float32)
     except Exception as e:  # pylint: disable=broad-except
       sig = dict(base, **core.exc_signature(e))
       sig["token"] = _token(e)
@@ -401,10 +458,17 @@ def canonical():
   qb6 = "quantized_bits(6,2,1,alpha=1.0)"
   out = []
 
-  def add(layer, kw, q, act, in_shape, ract=None):
+  def add(layer, kw, q, act, in_shape, ract=None, mask=None, qkw=None,
+          calls=None):
     c = {"layer": layer, "kw": kw, "q": q, "act": act, "in_shape": in_shape}
     if ract is not None:
       c["ract"] = ract
+    if mask is not None:
+      c["mask"] = mask
+    if qkw:
+      c["qkw"] = qkw
+    if calls:
+      c["calls"] = [{"in_shape": sh} for sh in calls]
     out.append(c)
 
   add("QDense", {"units": 3, "use_bias": True},
@@ -561,6 +625,115 @@ def canonical():
   add("QGlobalAveragePooling2D", {"data_format": "channels_first",
                                   "keepdims": True},
       {"average": "quantized_po2(4)"}, None, [1, 2, 3, 3])
+  # QConv2D kernel mask: q(kernel) * mask, with quantizers for which
+  # quantize-then-mask differs from mask-then-quantize (q(0) != 0, fitted
+  # scales) and with one where it does not
+  cross = [[0.0, 1.0, 0.0], [1.0, 1.0, 1.0], [0.0, 1.0, 0.0]]
+  for kq in ("binary(alpha=1)", "binary()", "binary(alpha='auto')",
+             "quantized_bits(4,0,1,alpha='auto')", "quantized_bits(4,0,1)",
+             "ternary(alpha='auto')", qb, None):
+    add("QConv2D", {"filters": 3, "kernel_size": [3, 3], "strides": [1, 1],
+                    "padding": "same", "dilation_rate": [1, 1],
+                    "use_bias": True, "data_format": "channels_last"},
+        {"kernel": kq, "bias": qb6}, None, [1, 4, 4, 2], mask=cross)
+  add("QConv2D", {"filters": 2, "kernel_size": [2, 3], "strides": [1, 2],
+                  "padding": "valid", "dilation_rate": [1, 1], "use_bias": False,
+                  "data_format": "channels_first", "groups": 2},
+      {"kernel": "binary(alpha='auto')", "bias": None}, "quantized_relu(4,2)",
+      [2, 4, 3, 5], mask=[[1.0, 0.0, 0.5], [2.0, 1.0, 0.0]],
+      qkw={"kernel_range": 1.0, "bias_range": 1.0})
+
+  # one layer instance, several calls on inputs of different admissible shapes
+  add("QGlobalAveragePooling2D", {"data_format": "channels_last",
+                                  "keepdims": False},
+      {"average": "quantized_bits(8,0,1)"}, None, [2, 3, 5, 2],
+      calls=[[1, 2, 2, 2], [2, 4, 3, 2]])
+  add("QGlobalAveragePooling2D", {"data_format": "channels_first",
+                                  "keepdims": True},
+      {"average": "quantized_po2(6,1)"}, "quantized_bits(6,2,1)", [1, 2, 4, 4],
+      calls=[[1, 2, 3, 5], [2, 2, 1, 1]])
+  add("QAveragePooling2D", {"pool_size": [2, 2], "strides": None,
+                            "padding": "same", "data_format": "channels_last"},
+      {"average": "quantized_bits(6,0,1,alpha=1.0)"}, "quantized_relu(4,2)",
+      [1, 4, 4, 2], calls=[[2, 5, 3, 2], [1, 2, 6, 2]])
+  add("QConv2D", {"filters": 3, "kernel_size": [3, 2], "strides": [1, 1],
+                  "padding": "same", "dilation_rate": [2, 1], "use_bias": True,
+                  "data_format": "channels_last"},
+      {"kernel": "quantized_bits(4,0,1)", "bias": qb6}, "quantized_relu(4,2)",
+      [2, 5, 4, 3], calls=[[1, 3, 6, 3], [3, 7, 2, 3]], mask=[[1.0, 0.0],
+                                                              [0.0, 1.0],
+                                                              [1.0, 1.0]])
+  add("QConv1D", {"filters": 3, "kernel_size": 3, "strides": 2,
+                  "padding": "causal", "dilation_rate": 1, "use_bias": True},
+      {"kernel": "ternary()", "bias": "quantized_po2(4)"}, None, [2, 7, 3],
+      calls=[[1, 4, 3], [3, 9, 3]])
+  add("QDepthwiseConv2D", {"kernel_size": [3, 3], "strides": [2, 2],
+                           "padding": "SAME", "dilation_rate": [1, 1],
+                           "depth_multiplier": 2, "use_bias": True,
+                           "data_format": "channels_last"},
+      {"depthwise": "quantized_bits(4,0,1,alpha='auto')", "bias": qb6},
+      "quantized_relu(4,2)", [2, 5, 5, 3], calls=[[1, 4, 7, 3]],
+      qkw={"depthwise_range": 1.0, "bias_range": 4.0})
+  add("QSeparableConv2D", {"filters": 3, "kernel_size": [2, 3],
+                           "strides": [1, 1], "padding": "valid",
+                           "dilation_rate": [1, 2], "depth_multiplier": 2,
+                           "use_bias": True, "data_format": "channels_last"},
+      {"depthwise": "quantized_bits(4,0,1)", "pointwise": "binary(alpha=1)",
+       "bias": qb6}, None, [2, 4, 6, 3], calls=[[1, 2, 5, 3], [1, 5, 8, 3]])
+  add("QSeparableConv1D", {"filters": 2, "kernel_size": 2, "strides": 1,
+                           "padding": "causal", "dilation_rate": 2,
+                           "depth_multiplier": 1, "use_bias": True},
+      {"depthwise": qb, "pointwise": "ternary(alpha=1)", "bias": qb6}, None,
+      [1, 5, 2], calls=[[2, 3, 2]])
+  add("QDense", {"units": 3, "use_bias": True},
+      {"kernel": "quantized_bits(4,0,1)", "bias": qb6}, "quantized_relu(4,2)",
+      [2, 3, 5], calls=[[1, 1, 5], [3, 2, 5]],
+      qkw={"kernel_range": 4.0, "bias_range": 1.0})
+  add("QScaleShift", {"use_bias": True},
+      {"weight": qb, "bias": "quantized_bits(6,2,1)"}, None, [2, 3, 4],
+      calls=[[1, 2, 2]])
+  add("QLSTM", {"units": 3, "use_bias": True, "return_sequences": True,
+                "go_backwards": False, "implementation": 1,
+                "dropout": 0.25, "recurrent_dropout": 0.5},
+      {"kernel": qb, "recurrent": "ternary(alpha=1)", "bias": qb6,
+       "state": "quantized_bits(4,0,1)"}, "quantized_tanh(5)", [2, 3, 4],
+      ract="hard_sigmoid", calls=[[1, 5, 4], [3, 1, 4]])
+  add("QGRU", {"units": 2, "use_bias": True, "return_sequences": False,
+               "go_backwards": True, "implementation": 2, "reset_after": True},
+      {"kernel": "quantized_bits(4,0,1)", "recurrent": qb6,
+       "bias": "quantized_po2(4)", "state": None}, "quantized_tanh", [2, 3, 2],
+      ract="quantized_sigmoid(5)", calls=[[1, 4, 2]])
+  add("QSimpleRNN", {"units": 3, "use_bias": True, "return_sequences": True,
+                     "go_backwards": False, "unroll": True},
+      {"kernel": qb, "recurrent": "quantized_bits(4,0,1)", "bias": qb6,
+       "state": None}, "quantized_tanh", [2, 4, 2])
+  add("QSimpleRNN", {"units": 2, "use_bias": True, "return_sequences": False,
+                     "go_backwards": False},
+      {"kernel": qb, "recurrent": qb6, "bias": None,
+       "state": "quantized_bits(4,0,1)"}, "quantized_tanh(5)", [1, 2, 3],
+      calls=[[2, 4, 3]])
+
+  # data-dependent scales on every role of the recurrent layers: quantizing
+  # a weight per gate instead of as a whole changes the fitted scale
+  auto = {"kernel": "quantized_bits(4,0,1,alpha='auto')",
+          "recurrent": "ternary(alpha='auto')",
+          "bias": "quantized_bits(4,0,1,alpha='auto')", "state": None}
+  auto2 = {"kernel": "binary(alpha='auto')",
+           "recurrent": "quantized_bits(5,1,1,alpha='auto_po2')",
+           "bias": "ternary(alpha='auto')", "state": "quantized_bits(4,0,1)"}
+  for impl in (1, 2):
+    for qq in (auto, auto2):
+      add("QLSTM", {"units": 2, "use_bias": True, "return_sequences": True,
+                    "go_backwards": False, "implementation": impl},
+          dict(qq), "quantized_tanh(5)", [2, 3, 3], ract="hard_sigmoid")
+      add("QGRU", {"units": 2, "use_bias": True, "return_sequences": False,
+                   "go_backwards": False, "implementation": impl,
+                   "reset_after": qq is auto2},
+          dict(qq), "quantized_tanh(5)", [2, 3, 3], ract="hard_sigmoid")
+  add("QSimpleRNN", {"units": 3, "use_bias": True, "return_sequences": False,
+                     "go_backwards": False}, dict(auto), "quantized_tanh(5)",
+      [2, 3, 2])
+
   # "applied once": every weighted layer type once more with quantizers that
   # are not idempotent on every weight role
   seen = set()
